@@ -224,6 +224,13 @@ def binop(I, fr, op, l, r, node):
     if not (is_numeric(l) and is_numeric(r)):
         return I.unmodelled(fr, node, "binary op on %s,%s" % (l.kind, r.kind))
     shape = bshape(l.shape, r.shape)
+    if l.shape is not None and r.shape is not None:
+        for x, y in zip(reversed(l.shape), reversed(r.shape)):
+            if x is not None and y is not None and x != y and x != ONE and y != ONE:
+                named_x = {a for a in x.atoms() if not a.startswith("$")}
+                named_y = {a for a in y.atoms() if not a.startswith("$")}
+                if named_x and named_x == named_y:  # same named length, different offset: e.g. P-s against P
+                    I.emit("shape-mismatch", fr, node, dims=(x, y), tags=tags_of(l, r))
     if l.kind == K_TOP or r.kind == K_TOP:
         if (l.kind == K_TOP and l.shape is None) or (r.kind == K_TOP and r.shape is None):
             shape = None
@@ -497,6 +504,13 @@ def compare(I, fr, op, l, r, node):
              ast.NotEq: a != b}[type(op)]
     elif ln.sym is not None and rn.sym is not None and equality and ln.sym == rn.sym:
         c = isinstance(op, ast.Eq)
+    elif (b == 0 and ln.sign in (S_POS, S_NEG)) or (a == 0 and rn.sign in (S_POS, S_NEG)):
+        x, flip = (ln, False) if b == 0 else (rn, True)
+        pos = x.sign == S_POS
+        t = type(op)
+        if flip:
+            t = {ast.Lt: ast.Gt, ast.Gt: ast.Lt, ast.LtE: ast.GtE, ast.GtE: ast.LtE}.get(t, t)
+        c = {ast.Eq: False, ast.NotEq: True, ast.Gt: pos, ast.GtE: pos, ast.Lt: not pos, ast.LtE: not pos}[t]
     kind = K_BOOL if shape == () else (K_ARRAY if shape is not None or K_ARRAY in (ln.kind, rn.kind) else K_BOOL)
     if shape is None and kind == K_BOOL and (ln.kind == K_TOP or rn.kind == K_TOP):
         kind = K_TOP
@@ -529,7 +543,7 @@ def _slice_len(dim, sl):
     return up_p - lo_p
 
 
-def subscript(I, fr, base, idx, node):
+def subscript(I, fr, base, idx, node, quiet=False):
     from .interp import alg_lub_pc
     # ---- python containers
     if base.kind in (K_TUPLE, K_LIST) and base.note != "range":
@@ -667,6 +681,8 @@ def subscript(I, fr, base, idx, node):
         elif last.kind == K_SLICE and last.note != "ellipsis":
             lo = last.items[0]
             f0 = lo is None or (int_const(lo) == 0)
+    if not quiet:
+        I.emit("subscript", fr, node, base=b, index=idx, basic=basic, comps=comps)
     ext = None
     if kind == K_SCALAR and len(comps) == 1 and 0 in b.mono and b.shape is not None and len(b.shape) == 1:
         k = int_const(comps[0])
